@@ -15,7 +15,7 @@ import (
 
 var c08Weights = core.OpWeights{
 	core.OpInsert: 20, core.OpInsertNew: 25, core.OpUpdate: 8, core.OpInsertSame: 3, core.OpDelete: 28,
-	core.OpClone: 4, core.OpPersist: 12, core.OpReload: 6, core.OpReloadJSON: 2, core.OpDrain: 1,
+	core.OpClone: 4, core.OpPersistFail: 2, core.OpPersist: 12, core.OpReload: 6, core.OpReloadJSON: 2, core.OpDrain: 1,
 }
 
 func genC08(t *rapid.T, tier string) HistCase {
